@@ -87,14 +87,22 @@ def ensure_driver(name, flavor, extra_flags=None, extra_srcs=None):
     fcntl.flock(lock, fcntl.LOCK_EX)
     try:
         drv = os.path.join(VERIF, "drv")
-        dep = max(newest_mtime([drv]), os.path.getmtime(lib))
+        deps = [os.path.join(drv, name + ".cpp")] + [os.path.join(drv, s) for s in (extra_srcs or [])]
+        dfile = out + ".d"
+        if os.path.exists(dfile):  # exact header dependencies inside /verif/drv from the last compile (-MMD)
+            for tok in open(dfile).read().replace("\\\n", " ").split():
+                if tok.startswith(drv + os.sep) and tok not in deps:
+                    deps.append(tok)
+        else:
+            deps.append(drv)
+        dep = max(newest_mtime(deps), os.path.getmtime(lib))
         if os.path.exists(out) and os.path.getmtime(out) >= dep:
             return out
         fl = FLAVORS[flavor]
         srcs = [os.path.join(drv, name + ".cpp")] + [os.path.join(drv, s) for s in (extra_srcs or [])]
         cmd = [fl["cxx"], "-std=c++17"] + fl["flags"].split() + ["-Wno-unused-value",
                "-I" + os.path.join(REPO, "src"), "-I" + os.path.join(d, "src"), "-I" + drv] + srcs + \
-              ["-o", out + ".tmp", lib, "-Wl,-rpath," + os.path.dirname(lib), "-lexpat", "-licuuc", "-licudata", "-lpthread"] + (extra_flags or [])
+              ["-MMD", "-MF", out + ".d", "-o", out + ".tmp", lib, "-Wl,-rpath," + os.path.dirname(lib), "-lexpat", "-licuuc", "-licudata", "-lpthread"] + (extra_flags or [])
         log = out + ".log"
         if os.path.exists(log):
             os.unlink(log)
